@@ -188,12 +188,51 @@ def run(facts, tr, rep):
     # poll
     gp = graph(poll)
     inner_polls = [c for c in gp.calls() if c.def_ == "core::future::future::Future::poll" and c.self_kind in ("alias", "param", "dyn")]
+    # the key field = the Option field the destructor takes
+    key_field = None
+    for c in gd.calls():
+        if c.name == "take" and "Option" in (c.path or "") and c.args:
+            recv = peel(tr.expand(tr.operand(dropb, c.args[0], c.loc)))
+            if recv[0] == "field":
+                key_field = recv[2]
     takes = [c for c in gp.calls() if c.name == "take" and "Option" in (c.path or "")]
     key_takes = []
     for c in takes:
         recv = peel(tr.expand(tr.operand(poll, c.args[0], c.loc)))
-        if recv[0] == "field" and "key" in str(recv[2]):
+        if recv[0] == "field" and recv[2] == key_field:
             key_takes.append(c)
+    # a private helper that receives `&mut key`, takes it and completes with it counts as take + complete at its call site
+    helper_completes = []
+    for c in gp.calls():
+        node = ("call", poll.crate.name, poll.def_, c.bb)
+        hb = tr.local_sync_callee(node)
+        if hb is None or hb.crate.name != CRATE or hb.def_ in remover_defs:
+            continue
+        passes_key = False
+        for a in c.args:
+            n = peel(tr.expand(tr.operand(poll, a, c.loc)))
+            if n[0] == "field" and n[2] == key_field:
+                passes_key = True
+        if not passes_key:
+            continue
+        hg = graph(hb)
+        with tr.bound(hb, node):
+            htakes = [x for x in hg.calls() if x.name == "take" and "Option" in (x.path or "")
+                      and peel(tr.expand(tr.operand(hb, x.args[0], x.loc), upvars=True))[0] == "field"
+                      and peel(tr.expand(tr.operand(hb, x.args[0], x.loc), upvars=True))[2] == key_field]
+        hrel = [x for x in hg.calls() if is_release(hb, x)]
+        rel_from_take = bool(hrel) and all(calls_in(tr, tr.expand(tr.operand(hb, x.args[1], x.loc)), lambda y: y.name == "take" and "Option" in (y.path or "")) for x in hrel if len(x.args) > 1)
+        # on every path through the helper the key is taken
+        if htakes:
+            r_ = hg.reach([0], kinds=(N,), avoid_nodes=[x.bb for x in htakes])
+            always = not any(hg.term(x)["k"] == "return" for x in r_)
+        else:
+            always = False
+        if htakes and always:
+            key_takes.append(c)
+            rep.saw(hb)
+            if hrel and rel_from_take:
+                helper_completes.append(c)
     rep.floor("C11.inner-poll-sites", len(inner_polls), 1)
     rep.floor("C11.key-take-sites", len(key_takes), 1)
     for n, ip in enumerate(inner_polls):
@@ -212,7 +251,8 @@ def run(facts, tr, rep):
         r = gp.reach([rb], kinds=(N,), avoid_nodes=[t.bb for t in key_takes])
         leak = [x for x in r if gp.term(x)["k"] == "return"]
         comp = [c for c in gp.calls() if is_release(poll, c) and c.bb in gp.reach([rb], kinds=(N,))]
-        from_take = bool(comp)
+        hcomp = [c for c in helper_completes if c.bb in gp.reach([rb], kinds=(N,))]
+        from_take = bool(comp) or bool(hcomp)
         for c in comp:
             kk = tr.expand(tr.operand(poll, c.args[1], c.loc)) if len(c.args) > 1 else ("unknown",)
             if not calls_in(tr, kk, lambda x: x.name == "take" and "Option" in (x.path or "")):
